@@ -72,18 +72,16 @@ inductive EncFrame (d : Dict) (deflate : Bytes → Bytes) : Node → Bytes → P
 /-- Sizes of the dictionary the format can address. -/
 def Dict.WF (d : Dict) : Prop := d.primary.length ≤ 236 ∧ d.secondary.length ≤ 1024
 
-/-- A string the encoder looks up is usable: non-empty and not one of the three reserved
-    primary entries (index 0 = empty, 1/2 = stream start/end). -/
-def AtomOK (d : Dict) (s : Str) : Prop :=
-  s ≠ [] ∧ indexOf? s d.primary ≠ some 0 ∧ indexOf? s d.primary ≠ some 1 ∧ indexOf? s d.primary ≠ some 2
-
-/-- `StrOK d s`: every string the encoder looks up while writing `s` (the string itself and, when it is
-    written in JID form, its user and server parts, recursively) is usable, and `s` is shorter than 2^31. -/
+/-- `StrOK d s`: the encoder's way of writing `s` — as a dictionary token, as a raw / packed string, or in JID form with its
+    user and server parts written recursively — stays within the format: every raw part is shorter than 2^31 and a
+    dictionary token is only used for a non-empty string (the WhatsApp dictionary has the empty string at the marker
+    index 0 only).  Since the encoder no longer uses the marker entries 0..2 as string tokens, the reserved words and the
+    empty string are ordinary strings here. -/
 inductive StrOK (d : Dict) : Str → Prop
-  | token (s : Str) (i : Nat) (sec : Bool) : AtomOK d s → d.getIndex s = some (i, sec) → StrOK d s
-  | plain (s : Str) : AtomOK d s → d.getIndex s = none → atIndex s = none → s.length < 2147483648 → StrOK d s
-  | atFirst (s : Str) : AtomOK d s → d.getIndex s = none → atIndex s = some 0 → s.length < 2147483648 → StrOK d s
-  | jid (s : Str) (a : Nat) : AtomOK d s → d.getIndex s = none → atIndex s = some a → 1 ≤ a →
+  | token (s : Str) (i : Nat) (sec : Bool) : s ≠ [] → d.lookup s = some (i, sec) → StrOK d s
+  | plain (s : Str) : d.lookup s = none → atIndex s = none → s.length < 2147483648 → StrOK d s
+  | atFirst (s : Str) : d.lookup s = none → atIndex s = some 0 → s.length < 2147483648 → StrOK d s
+  | jid (s : Str) (a : Nat) : d.lookup s = none → atIndex s = some a → 1 ≤ a →
       StrOK d (s.take a) → StrOK d (s.drop (a + 1)) → StrOK d s
 
 def AttrsOK (d : Dict) (attrs : List (Str × Str)) : Prop :=
